@@ -815,7 +815,9 @@ func ParseCommands(env *interp.ExecEnv, name string, src interface{}) ([]ast.Com
 
 	l := newLexer(env, name, r)
 	yyParse(l)
+	verifPoint(l, "P.parsed", 0)
 	<-l.done
+	verifPoint(l, "P.joined", 0)
 	return l.cmds, l.comments, l.err
 }
 
